@@ -413,8 +413,14 @@ class Reach:
                 self.hit.add(n)
 
 
+COST = {"IKinSpace": 30, "SPFKinSpaceR": 20, "IKinSpaceConstrained": 16, "GlobalToLocal": 12, "LocalToGlobal": 10, "FKinSpace": 8,
+        "JacobianSpace": 8, "FKinBody": 7, "JacobianBody": 7, "SPIKinSpace": 7.5, "DistanceToSO3": 5.5, "ScrewToAxis": 5, "MatrixExp6": 5,
+        "JointTrajectory": 4.3, "DistanceToSE3": 3.6, "RpToTrans": 3.4, "IKinBody": 3.3, "ad": 3, "VecTose3": 2.7, "MatMul": 2.7, "entries": 12}
+
+
 class Driver:
-    def __init__(self, mode, tier, seed, out, only=None):
+    def __init__(self, mode, tier, seed, out, only=None, shard=None):
+        self.shard = shard
         self.mode, self.tier, self.seed = mode, tier, seed
         self.out = out
         self.only = set(only) if only else None
@@ -428,6 +434,7 @@ class Driver:
         for mn in KERNEL_MODULES:
             self.kmods[mn] = importlib.import_module(mn)
         self.numba_err = ()
+        self.rejected = {}
         self.codes = {}
         if mode == "nojit":
             for mn, fn in self.src:
@@ -447,19 +454,37 @@ class Driver:
     def want(self, cid):
         return self.only is None or cid in self.only
 
-    def call(self, cid, fn, extra=None, post=None):
-        """Run fn() and write its record.  `post()` returns the state to digest together with the result."""
+    def mine(self, unit):
+        """Sharding of one mode over processes: units (kernels, 'entries') are dealt out greedily by estimated JIT cost."""
+        if self.shard is None:
+            return True
+        i, n = self.shard
+        units = sorted([fn for _, fn in self.src] + ["entries"], key=lambda u: (-COST.get(u, 2.0), u))
+        load = [0.0] * n
+        for u in units:
+            k = min(range(n), key=lambda q: (load[q], q))
+            load[k] += COST.get(u, 2.0)
+            if u == unit:
+                return k == i
+        return False
+
+    def call(self, cid, fn, extra=None, post=None, pre=None):
+        """Run fn() and write its record.  `pre()` prepares the object (its kernels are not counted as reached by the
+        entry point, its exceptions are), `post()` returns the state to digest together with the result."""
         rec = {"id": cid}
         if extra:
             rec.update(extra)
         reach = None
-        if self.codes:
-            reach = Reach(self.codes)
-            sys.setprofile(reach)
+        t0 = time.time()
         try:
+            with contextlib.redirect_stdout(io.StringIO()), contextlib.redirect_stderr(io.StringIO()):
+                arg = pre() if pre else None
+            if self.codes:
+                reach = Reach(self.codes)
+                sys.setprofile(reach)
             try:
-                with contextlib.redirect_stdout(io.StringIO()):
-                    r = fn()
+                with contextlib.redirect_stdout(io.StringIO()), contextlib.redirect_stderr(io.StringIO()):
+                    r = fn(arg) if pre else fn()
             finally:
                 if reach is not None:
                     sys.setprofile(None)
@@ -473,7 +498,15 @@ class Driver:
                         "nb": bool(self.numba_err and isinstance(e, self.numba_err))})
         if reach is not None:
             rec["k"] = sorted(reach.hit)
+        rec["t"] = round(time.time() - t0, 4)
         self.emit(rec)
+        return rec
+
+    def typesig(self, name, args):
+        if self.mode == "nojit":
+            return None
+        import numba
+        return (name,) + tuple(str(numba.typeof(a)) for a in args)
 
     # -- part (i)
     def kernels(self):
@@ -486,7 +519,7 @@ class Driver:
         self.emit({"id": "meta|programs", "st": "meta", "source": names, "missing_inputs": missing, "stale_inputs": extra,
                    "introspection": None if self.mode == "nojit" else [fn for _, fn in jit_functions_by_introspection()]})
         for mn, name in self.src:
-            if name not in K:
+            if name not in K or not self.mine(name):
                 continue
             f = getattr(self.kmods[mn], name)
             t0 = time.time()
@@ -504,7 +537,15 @@ class Driver:
                         self.emit({"id": cid, "st": "dup"})
                         continue
                     seen.add(key)
-                    self.call(cid, lambda: f(*a2), {"key": key}, post=lambda: parents)
+                    ts = self.typesig(name, a2)
+                    if ts in self.rejected:      # Numba decides acceptance on the argument types alone
+                        rec = dict(self.rejected[ts])
+                        rec.update({"id": cid, "key": key, "same_types_as": rec["id"]})
+                        self.emit(rec)
+                        continue
+                    rec = self.call(cid, lambda: f(*a2), {"key": key}, post=lambda: parents)
+                    if ts is not None and rec["st"] == "exc" and (rec["nb"] or rec["exc"] == "TypeError"):
+                        self.rejected[ts] = rec
             self.t_parts[name] = round(time.time() - t0, 3)
 
     # -- part (ii)
@@ -539,7 +580,7 @@ def add_dynamics(arm, ref):
     for i in range(1, n):
         mt[i] = Tspace[i - 1].inv() @ Tspace[i]
     mt[n] = Tspace[n - 1].inv() @ ee_home
-    masses = np.array([20.0, 20.0, 20.0, 1.0, 1.0, 1.0, 0.5])[:n]
+    masses = np.array([20.0, 20.0, 20.0, 1.0, 1.0, 1.0, 0.5, 0.25])[:n + 1]     # one per link frame, tool included
     G = np.zeros((n, 6, 6))
     for i in range(n):
         G[i, :, :] = fsr.boxSpatialInertia(masses[i], dims[0, i], dims[1, i], dims[2, i])
@@ -642,7 +683,6 @@ def arm_entries():
     for k in ("IK", "IK_protect", "IK_current", "constrainedIK"):
         add(k, ik(k))
     add("IKFree", lambda a, x, i: a.IKFree(x.near(), x.th0(), [i]), "dof")
-    add("lineTrajectory", lambda a, x: a.lineTrajectory(x.near(), delt=0.01))
     add("randomPos", lambda a, x: _with_random(a.randomPos))
     add("staticForces", lambda a, x: a.staticForces(x.W(), x.th()))
     add("staticForcesBody", lambda a, x: a.staticForcesBody(x.W(), x.th()))
@@ -818,8 +858,7 @@ def tm_entries(P):
              ("transformByVector", lambda: fsr.transformByVector(A(), p2.copy())), ("getUnitVec", lambda: fsr.getUnitVec(A(), B(), 0.5)),
              ("chainJacobian", lambda: fsr.chainJacobian(np.stack([np.concatenate([w, p]), np.concatenate([w2, p2]), taa], axis=1), np.array([0.3, -0.2, 0.5]))),
              ("wrench_changeFrame", lambda: _ret(Wrench(WRENCH6.copy()), lambda q: q.changeFrame(A(), B()))),
-             ("fsr_LocalToGlobal", lambda: fsr.LocalToGlobal(taa.reshape(6, 1).copy(), taa2.reshape(6, 1).copy())),
-             ("fsr_GlobalToLocal", lambda: fsr.GlobalToLocal(taa.reshape(6, 1).copy(), taa2.reshape(6, 1).copy()))]
+             ("fsr_LocalToGlobal", lambda: fsr.LocalToGlobal(A(), B())), ("fsr_GlobalToLocal", lambda: fsr.GlobalToLocal(A(), B()))]
         for name, fn in E:
             out.append(("p%d" % i, name, fn))
     return out
@@ -866,12 +905,12 @@ def run_entries(d):
                         continue
                     box = {}
 
-                    def go():
+                    def pre():
                         a = copy.deepcopy(pristine)
                         box["a"] = a
                         a.FK(x.th())
-                        return fn(a, x) if i is None else fn(a, x, i)
-                    d.call(cid, go, post=lambda: arm_state(box["a"]))
+                        return a
+                    d.call(cid, (lambda a: fn(a, x)) if i is None else (lambda a: fn(a, x, i)), pre=pre, post=lambda: arm_state(box["a"]))
         d.t_parts["e.arm:" + an] = round(time.time() - t0, 3)
     # --- platforms
     goals = SP_GOALS if d.tier == "thorough" else [SP_GOALS[0], SP_GOALS[2], SP_GOALS[7]]
@@ -892,12 +931,12 @@ def run_entries(d):
                             continue
                         box = {}
 
-                        def go():
+                        def pre():
                             s = copy.deepcopy(pristine)
                             box["s"] = s
                             s.IK(top_plate_pos=x.top(), protect=True)
-                            return fn(s, x) if i is None else fn(s, x, i)
-                        d.call(cid, go, post=lambda: sp_state(box["s"]))
+                            return s
+                        d.call(cid, (lambda s: fn(s, x)) if i is None else (lambda s: fn(s, x, i)), pre=pre, post=lambda: sp_state(box["s"]))
             d.t_parts["e.sp:%s@%s" % (sn, bn)] = round(time.time() - t0, 3)
 
 
@@ -909,6 +948,7 @@ def main(argv=None):
     ap.add_argument("--seed", type=int, default=0)
     ap.add_argument("--only", nargs="*", default=None)
     ap.add_argument("--part", default="all", choices=["all", "kernels", "entries"])
+    ap.add_argument("--shard", default=None, help="i/n: this process handles share i of n of the units")
     a = ap.parse_args(argv)
     here = os.path.dirname(os.path.dirname(os.path.abspath(__file__)))
     if here not in sys.path:
@@ -923,7 +963,8 @@ def main(argv=None):
     t0 = time.time()
     os.makedirs(os.path.dirname(os.path.abspath(a.out)), exist_ok=True)
     with open(a.out, "w") as out:
-        d = Driver(a.mode, a.tier, a.seed, out, a.only)
+        shard = tuple(int(x) for x in a.shard.split("/")) if a.shard else None
+        d = Driver(a.mode, a.tier, a.seed, out, a.only, shard)
         d.emit({"id": "meta|start", "st": "meta", "mode": a.mode, "numba": numba.__version__, "cache": os.environ.get("NUMBA_CACHE_DIR"),
                 "tree": os.environ.get("VERIF_TREE_SHA")})
         only_e = a.only and all(x.startswith("e|") for x in a.only)
@@ -931,7 +972,7 @@ def main(argv=None):
         if a.part in ("all", "kernels") and not only_e:
             d.kernels()
         t1 = time.time()
-        if a.part in ("all", "entries") and not only_k:
+        if a.part in ("all", "entries") and not only_k and d.mine("entries"):
             d.entries()
         d.emit({"id": "meta|end", "st": "meta", "cases": d.n, "wall_kernels": round(t1 - t0, 2), "wall_entries": round(time.time() - t1, 2),
                 "t_kernels": d.t_parts})
